@@ -3,26 +3,14 @@
 -/
 import Mistune.Model.Block
 import Mistune.Model.Inline
+import Mistune.SecondPass
 namespace Mistune
 namespace Model
 
-/-- `Markdown._iter_render`: children first, else `text` is replaced by inline `children`. Fuel bounds the tree depth. -/
-def iterRender (cfg : MdCfg) (env : Json) : Nat → List Json → Except PyErr (List Json)
-  | 0, _ => .error .depthExceeded
-  | _ + 1, [] => .ok []
-  | fuel + 1, t :: rest => do
-    let t' ← match t.get? "children" with
-      | some (.arr cs) => do
-        let cs' ← iterRender cfg env fuel cs
-        pure (t.set "children" (.arr cs'))
-      | _ =>
-        match t.get? "text" with
-        | some (.str text) => do
-          let cs ← inlineParse cfg env (Py.stripC " \r\n\t\x0c".toList text)
-          pure ((t.erase "text").set "children" (.arr cs))
-        | _ => pure t
-    let rest' ← iterRender cfg env (fuel + 1 - 1 + 1) rest
-    pure (t' :: rest')
+/-- `Markdown._iter_render` with the concrete inline parser: the generic second pass of `Mistune.SecondPass`
+(about which `iterRender_shape` / `iterRender_length` are proved) instantiated. -/
+def iterRender (cfg : MdCfg) (env : Json) (fuel : Nat) (toks : List Json) : Except PyErr (List Json) :=
+  iterRenderG (inlineParse cfg env) fuel toks
 
 /-- `md(s)` with `renderer=None` -/
 def parseDoc (cfg : MdCfg) (s : Str) : Except PyErr (List Json) := do
